@@ -1113,6 +1113,34 @@ M('sweep11.props.asmap_ok', ['C02'], 'core/src/props.rs',
   '            stream.map_key_begin()?;',
   '            stream.map_key_begin().ok();', 'views-propagate')
 
+M('sweep11.metrics.sum_sub_a', ['C13'], 'emitter/otlp/src/data/metrics.rs',
+  'AsDouble(AsDouble(current + value as f64))',
+  'AsDouble(AsDouble(current - value as f64))', 'sum-accumulates')
+M('sweep11.metrics.sum_sub_b', ['C13'], 'emitter/otlp/src/data/metrics.rs',
+  'AsDouble(AsDouble(current + value))',
+  'AsDouble(AsDouble(current - value))', 'sum-accumulates')
+M('sweep11.metrics.range_add', ['C13'], 'emitter/otlp/src/data/metrics.rs',
+  'time_unix_nano.saturating_sub(start_time_unix_nano)',
+  'time_unix_nano.saturating_add(start_time_unix_nano)', 'range-end-minus-start')
+M('sweep11.metrics.range_swapped', ['C13'], 'emitter/otlp/src/data/metrics.rs',
+  'time_unix_nano.saturating_sub(start_time_unix_nano)',
+  'start_time_unix_nano.saturating_sub(time_unix_nano)', 'range-end-minus-start')
+M('sweep11.file.listing_neg', ['C11'], 'emitter/file/src/lib.rs',
+  'if entry.metadata().ok()?.is_file() {',
+  'if !entry.metadata().ok()?.is_file() {', 'std-listing-files-only')
+M('sweep11.file.listing_none', ['C11'], 'emitter/file/src/lib.rs',
+  '                Some(entry.path())\n',
+  '                None\n', 'std-listing-files-only')
+M('sweep11.file.batch_len_add', ['C09', 'C10'], 'emitter/file/src/lib.rs',
+  'self.bufs.len() - self.index',
+  'self.bufs.len() + self.index', 'EventBatch::len')
+M('sweep11.http.tls_neg', ['C12'], 'emitter/otlp/src/client/http.rs',
+  '    if uri.is_https() {\n        #[cfg(feature = "tls")]',
+  '    if !uri.is_https() {\n        #[cfg(feature = "tls")]', 'tls-iff-https')
+M('sweep11.http.content_len_sub', ['C12'], 'emitter/otlp/src/client/http.rs',
+  'self.content_frame_len() + self.content_payload_len()',
+  'self.content_frame_len() - self.content_payload_len()', 'content-length')
+
 # ---- round 6 (own probing of the blocking entry points): Trigger, send_or_wait, callbacks ------------------------------------------
 M("C07.wait_zero_timeout_reports_flushed", ["C07"], "batcher/src/sync.rs",
   "            if timeout == Duration::ZERO {\n                return false;", "            if timeout == Duration::ZERO {\n                return true;", "C07.R4:Trigger")
